@@ -390,7 +390,7 @@ def crosscheck(prop, seed, n_each=6):
     res = {"runs": 0, "agree": 0, "skipped": 0, "disagreements": [], "by_function": {}}
     for target in REGISTRY.order:
         con = REGISTRY.get(target)
-        if prop not in con.props or getattr(con, "no_crosscheck", False):
+        if prop not in con.props or getattr(con, "no_crosscheck", False) or not con.cases:
             continue
         done = 0
         tries = 0
@@ -485,7 +485,7 @@ def random_search(prop, targets, seed, n_each, outdir):
     os.makedirs(outdir, exist_ok=True)
     for target in targets:
         con = REGISTRY.get(target)
-        if con is None or getattr(con, "no_replay", False):
+        if con is None or getattr(con, "no_replay", False) or not con.cases:
             continue
         tries = 0
         done = 0
